@@ -164,11 +164,24 @@ def run_dbos_standin(out: Outcome, create_row: bool) -> dict:
 SECOND_RELOAD_SIG = "/dbos_second_reload_fails"
 
 
+def _known_trigger(sig: str) -> str | None:
+    """classes of signatures that the UNCHANGED tree produces on the gated DBOS stack: classified apart by the monitors, reproduced by
+    their witnesses on every run, counted where a generated case runs into them, and turned into a violation only through the
+    known-findings list (so that they neither alarm on the clean tree nor hide any other signature of the same execution)"""
+    if sig.endswith(SECOND_RELOAD_SIG):
+        return "second reload died"
+    if sig.endswith(":" + DG.WINDOW):
+        return "tick in flight while the run is released"
+    if sig.endswith(":" + DG.RESUME_WINDOW):
+        return "tick sent to the exited workflow while the run is resumed"
+    return None
+
+
 def run_dbos_gated(env: Env, out: Outcome, prop: str, n_cases: int) -> None:
     """DBOS half under latency (harness/server/dbos_gated.py): corpus, replay, generated cases; K against the protocol machine
-    of M7 (B) and the monitors of `prop`.  A reload that dies replaying the log after an earlier reload is classified apart
-    (`<prop>/dbos_second_reload_fails`): reproduced by its witness on every run, reported as a violation only through the
-    known-findings list (it is a fact about the unchanged tree), counted where a generated case runs into it."""
+    of M7 (B) and the monitors of `prop` (C36: `monitors`; C26: `monitors_c26`, with C26's case distribution `gen_case_c26`).
+    Signatures of a known-trigger class (`_known_trigger`) are facts about the unchanged tree: reproduced by their witnesses on
+    every run, reported as a violation only through the known-findings list, counted where a generated case runs into them."""
     from ..runner import load_known
 
     listed = {k["signature"] for k in load_known() if k["property"] == prop}
@@ -191,6 +204,13 @@ def run_dbos_gated(env: Env, out: Outcome, prop: str, n_cases: int) -> None:
                 out.count("dbos-gated: tick consumed by the run while its release was in flight")
             if any(e["ev"] == "delivered" and not e["live"] for e in o["events"]):
                 out.count("dbos-gated: tick delivered to a workflow that had exited (C26's check-then-send window)")
+            if prop == "C26":
+                if r["case"].get("work"):
+                    out.count("dbos-gated: steps that take time")
+                if sum(1 for e in o["events"] if e["ev"] == "try_resume" and e["res"] in ("released", "releasing")) >= 2:
+                    out.count("dbos-gated: several try_begin_resume calls found the run released / releasing")
+                if "late" in o["facts"]:
+                    out.count("dbos-gated: an open send was followed past the crash timeout")
             if "reload" in kinds and "ir_sent" in kinds:
                 out.nontrivial(json.dumps(r["case"], sort_keys=True))
             out.sample({"dbos_gated": r["case"], "ops": o["ops"][:30], "quiet": o["facts"].get("quiet")}, cap=2)
@@ -203,9 +223,10 @@ def run_dbos_gated(env: Env, out: Outcome, prop: str, n_cases: int) -> None:
                 if sig in seen:
                     continue
                 seen.add(sig)
-                if sig.endswith(SECOND_RELOAD_SIG):
-                    out.count("dbos-gated: second reload died (known trigger)")
-                    if tag != "witness" or sig not in listed:
+                cls = _known_trigger(sig)
+                if cls is not None:
+                    out.count(f"dbos-gated: known trigger ({cls})")
+                    if not tag.startswith("witness") or sig not in listed:
                         continue
                 out.violations.append(Violation(sig, what, {"kind": "dbos_gated", "case": r["case"]}))
 
@@ -218,12 +239,22 @@ def run_dbos_gated(env: Env, out: Outcome, prop: str, n_cases: int) -> None:
             ctx = d.get("context") or {}
             if isinstance(ctx, dict) and ctx.get("kind") == "dbos_gated":
                 take(DG.check_cases([ctx["case"]], prop), "replay")
-    take(DG.check_cases([c for _n, c in DG.CORPUS], prop), "corpus")
+    corpus = DG.C26_CORPUS if prop == "C26" else DG.CORPUS
+    take(DG.check_cases([c for _n, c in corpus], prop), "corpus")
     w = DG.check_cases([DG.WITNESS_SECOND_RELOAD], prop)
     take(w, "witness")
     if not any(sig.endswith(SECOND_RELOAD_SIG) for sig, _ in w[0]["findings"]):
         out.notes.append("dbos-gated: the second-reload witness did not reproduce (the reloading tick is now persisted?)")
-    cases = [DG.gen_case(rng) for _ in range(n_cases)]
+    if prop == "C26":
+        for name, case, expect in DG.C26_WITNESSES:
+            w = DG.check_cases([case], prop)
+            take(w, "witness:" + name)
+            got = {sig for sig, _ in w[0]["findings"]}
+            missing = [s for s in expect if s not in got]
+            if missing:
+                out.notes.append(f"dbos-gated: witness {name} did not reproduce {missing} (got {sorted(got)}): the unchanged-tree window it records has changed")
+    gen = DG.gen_case_c26 if prop == "C26" else DG.gen_case
+    cases = [gen(rng) for _ in range(n_cases)]
     B = 50
     for i in range(0, len(cases), B):
         take(DG.check_cases(cases[i:i + B], prop), "generated")
